@@ -32,7 +32,9 @@ RULE = (
     "is present); distinct by the spec; outcome = hash of (is_valid_tsv(text), converted text)"
 )
 ASSUMPTIONS = [
-    "fields are non-empty and free of whitespace; the header contains the column name Proteins exactly once",
+    "fields are non-empty and free of tab / CR / LF; blanks and the exotic separators \\x0b \\x0c \\x1c-\\x1e \\x85 "
+    "U+2028 U+2029 occur only INSIDE a field (family `ws`), never at the start or end of a line, where the "
+    "converter's strip() would legitimately remove them; the header contains the column name Proteins exactly once",
     "a DefaultDirection line, when present, is the second line (that is where the format allows it)",
     "texts have a header and at least one PSM line; rows lacking the protein field (0 proteins) are outside the "
     "converter's domain and only the validity predicate is checked on them",
@@ -41,7 +43,11 @@ ASSUMPTIONS = [
     "temporary file and leftovers belong to C09",
 ]
 
+import locale
+
+_ENC = locale.getpreferredencoding(False)  # mokapot opens the file with the default encoding
 SEPS = (":", ";")
+WS_CHARS = (" ", "\x0b", "\x0c", "\x1c", "\x1d", "\x1e", "\x85", "\u2028", "\u2029")
 
 
 class _Stop(BaseException):
@@ -60,7 +66,7 @@ def _cli_verify(text, workdir):
     """Run mokapot.mokapot.main on a real file until it reaches read_pin; return the file afterwards."""
     mm = sys.modules.get("mokapot.mokapot") or __import__("importlib").import_module("mokapot.mokapot")
     pin = Path(workdir) / "in.pin"
-    pin.write_text(text)
+    pin.write_bytes(text.encode(_ENC))  # exactly these characters, no newline translation
     tmp = Path(str(pin) + ".tsv")
     if tmp.exists():
         tmp.unlink()
@@ -76,7 +82,14 @@ def _cli_verify(text, workdir):
         pass
     finally:
         mm.read_pin = orig
-    return pin.read_text()
+    return pin.read_bytes().decode(_ENC)
+
+
+def _encodable(text):
+    try:
+        return text.encode(_ENC).decode(_ENC) == text
+    except UnicodeError:
+        return False
 
 
 def _diagnose(want, got_lines):
@@ -144,7 +157,7 @@ def check_case(case, acc, workdir=None):
                 except Exception as e:
                     acc.violation(Violation(f"tsv-reconvert-raises:{type(e).__name__}",
                                             f"re-validating/re-converting the output raised {e!r}", case))
-        if sep == ":" and workdir is not None:
+        if sep == ":" and workdir is not None and _encodable(text):
             acc.count("cli_verify_runs")
             try:
                 final = _cli_verify(text, workdir)
@@ -154,33 +167,38 @@ def check_case(case, acc, workdir=None):
                 if (final != text) if want_valid else (text_lines(final) != want):
                     acc.violation(Violation("cli-verify-wrong", "file after the CLI verify step is not the expected table",
                                             case, text if want_valid else want, final))
-    acc.case(key=hash((case["nfeat"], case["pidx"], tuple(case["rows"]), case["dd"], case["nl"], sep)),
+    acc.case(key=hash((case["nfeat"], case["pidx"], tuple(case["rows"]), case["dd"], case["nl"], sep, case.get("ws", ""))),
              nontrivial=not want_valid, outcome=hash((valid, out)),
              cls="valid_input" if want_valid else ("convertible" if in_domain else "short_row"),
              sample=dict(case, text=text, output=out) if acc.evaluations % 997 == 5 else None)
 
 
 def worker(item):
-    nfeat, pidx, dd, nl, max_rows, max_prot = item
+    nfeat, pidx, dd, nl, max_rows, max_prot, ws = item
     acc = Acc()
     with tempfile.TemporaryDirectory(prefix="c19_", dir=os.environ.get("VERIF_SCRATCH") or scratch_root()) as wd:
         for nrows in range(1, max_rows + 1):
             for rows in itertools.product(range(0, max_prot + 1), repeat=nrows):
                 for sep in (SEPS if min(rows) >= 1 else SEPS[:1]):  # separator matters for conversions only
-                    check_case(dict(nfeat=nfeat, pidx=pidx, rows=list(rows), dd=dd, nl=nl, sep=sep), acc, wd)
+                    check_case(dict(nfeat=nfeat, pidx=pidx, rows=list(rows), dd=dd, nl=nl, sep=sep, ws=ws), acc, wd)
     return acc
 
 
 def run(ctx):
     max_feat, max_rows, max_prot = (2, 3, 3) if ctx.quick else (3, 5, 4)
-    items = [(nfeat, pidx, dd, nl, max_rows, max_prot)
+    items = [(nfeat, pidx, dd, nl, max_rows, max_prot, "")
              for nfeat in range(max_feat + 1) for pidx in range(0, nfeat + 5)
              for dd in ("none", "short", "full") for nl in (False, True)]
+    # family `ws`: a blank or an exotic separator character inside fields (smaller row bound)
+    items += [(nfeat, pidx, dd, nl, 2, min(max_prot, 3), ws)
+              for ws in WS_CHARS for nfeat in range(min(max_feat, 2) + 1) for pidx in range(0, nfeat + 5)
+              for dd in ("none", "short", "full") for nl in (False, True)]
     ctx.pmap(worker, items, chunksize=1)
     ctx.exhaustive = True
     ctx.info["bound"] = {"max_feature_columns": max_feat, "max_rows": max_rows, "max_proteins_per_row": max_prot,
                          "protein_column_positions": "all (0 .. last)", "default_direction": ["none", "short", "full"],
-                         "trailing_newline": [False, True], "protein_separators": list(SEPS)}
+                         "trailing_newline": [False, True], "protein_separators": list(SEPS),
+                         "characters_inside_fields": [repr(c) for c in WS_CHARS] + ["(<= 2 rows for these)"]}
     ctx.info["explanation"] = (
         f"every PIN text with <= {max_feat} feature columns, <= {max_rows} rows, 0..{max_prot} proteins per row, "
         "every protein column position, DefaultDirection none/short/full, with/without trailing newline"
